@@ -70,6 +70,7 @@ pub struct C14Checker {
     clean: HashMap<String, Vec<(String, Res)>>,
     /// per round: the sources of the two expressions that were set successfully
     srcs: HashMap<String, (Option<String>, Option<String>)>,
+    tainted: bool,
 }
 
 /// expression with separator-bearing numbers used in the second part of every probe round
@@ -77,11 +78,19 @@ const NUMBERS_EXPR: usize = 31;
 
 impl C14Checker {
     pub fn new(_trace: &Trace, _session: usize) -> C14Checker {
-        C14Checker { rounds: HashMap::new(), outstanding: vec![], last_fault: "none".into(), last_repair: "none".into(), ever_faulted: false, clean: HashMap::new(), srcs: HashMap::new() }
+        C14Checker { rounds: HashMap::new(), outstanding: vec![], last_fault: "none".into(), last_repair: "none".into(), ever_faulted: false, clean: HashMap::new(), srcs: HashMap::new(), tainted: false }
     }
 
     /// O2: the call that consumed faulted bytes of a MUST-ERR fault must fail and name the file
     fn check_o2(&mut self, s: &mut Sess, op: &Op, res: &Res) {
+        // taint: the session has taken in content (or a fallback location) of a fault that may legally load; until the
+        // end-of-run recovery its Ok outputs are a legal different configuration and are not compared (O3 relaxation)
+        if s.last_seam.iter().any(|r| r.fault.as_ref().map(|f| f.class == FaultClass::MayLoad).unwrap_or(false)) {
+            if !self.tainted {
+                s.probe("session_tainted_by_may_load_fault");
+            }
+            self.tainted = true;
+        }
         let consumed: Vec<SeamRec> = s
             .last_seam
             .iter()
@@ -167,9 +176,16 @@ impl C14Checker {
         // configuration and expression gave before any fault (a half-loaded table must never speak).
         // Only outputs that do not depend on a failed earlier call of the round are compared.
         let key = format!("{}|{:?}", cfg_key, expr);
+        // a round is a valid "before the fault" baseline only if nothing was injected into it and its expression was set
+        let injected_here = {
+            let g = s.world.lock();
+            g.injections.iter().any(|i| i.session == s.id && i.step == s.step)
+        };
         if !self.ever_faulted {
-            self.clean.insert(key.clone(), results.clone());
-        } else if !self.outstanding.is_empty() && self.outstanding.iter().all(|o| o.must_err_content) {
+            if !injected_here && results.first().map(|(_, r)| r.is_ok()).unwrap_or(false) {
+                self.clean.insert(key.clone(), results.clone());
+            }
+        } else if !self.tainted && !self.outstanding.is_empty() && self.outstanding.iter().all(|o| o.must_err_content) {
             if let Some(base) = self.clean.get(&key).cloned() {
                 let set_ok = results.first().map(|(_, r)| r.is_ok()).unwrap_or(false);
                 let mut nav_ok = set_ok;
